@@ -523,8 +523,13 @@ func (o *OperandPegImpl) IsType(index int, targetType OperandType) bool {
 // CalcSibByteSize は、SIB バイトが必要な場合に 1 を、不要な場合に 0 を返します。
 func (o *OperandPegImpl) CalcSibByteSize() int {
 	memInfo, found := o.GetMemoryInfo()
-	// 32ビットモードでメモリオペランドがある場合のみ SIB の可能性を考慮
-	if found && memInfo != nil && o.GetBitMode() == cpu.MODE_32BIT {
+	if !found || memInfo == nil {
+		return 0
+	}
+	// SIB は 32 ビットアドレッシングで使われる: 32 ビットモード、または 16 ビットモードで
+	// 32 ビットレジスタ (67h プレフィックス付き) を使うメモリオペランド。
+	uses32bitRegs := strings.HasPrefix(memInfo.BaseReg, "E") || strings.HasPrefix(memInfo.IndexReg, "E")
+	if o.GetBitMode() == cpu.MODE_32BIT || uses32bitRegs {
 		// ModR/M rm=100 になる条件をチェック (calculateModRM のロジックを参考)
 		isDirectAddr := memInfo.BaseReg == "" && memInfo.IndexReg == ""
 		isEBPBasedNoIndex := memInfo.BaseReg == "EBP" && memInfo.IndexReg == ""
